@@ -73,8 +73,14 @@ def merge_contract(it, st, bound, site):
     return o
 
 
+def _iso_name(env):
+    """the list of clusters that were not merged, whatever the code calls it (the only list-valued local besides the work list)"""
+    from engine.symcoll import local_named
+    return local_named(env, "isolated_clusters", lambda v: isinstance(v, (list, ObjBag)), exclude=("clusters", "overlaps"))
+
+
 def all_ids(env):
-    iso = ObjBag.ids_of(env.lookup("isolated_clusters"))
+    iso = ObjBag.ids_of(env.vars[_iso_name(env)])
     cl = ObjBag.ids_of(env.lookup("clusters"))
     return z3.Map(z3.Or(z3.Bool("b1"), z3.Bool("b2")).decl(), iso, cl)
 
@@ -96,7 +102,7 @@ def havoc(st, env, old):
     for f in ("indices", "species", "_merged", "_dimensionality", "_distance_matrix_radii_mic", "_radii", "_bond_threshold", "_region"):
         havoc_field(st, "Cluster", f)
     cm = cluster_ctx()
-    for nm in ("clusters", "isolated_clusters"):
+    for nm in ("clusters", _iso_name(env)):
         st.n += 1
         env.vars[nm] = ObjBag(z3.Const("%s!%d" % (nm, st.n), z3.ArraySort(I, B)), cm.defs["Cluster"], CLUSTER_SCHEMA, "Cluster")
     # the parameter `clusters` is mutated in place by pop/append: the havocked object replaces it for the rest of the function
